@@ -613,7 +613,7 @@ def main_check(modname, prop, tier, seed):
         # independent re-check of the property file's .vo closure and its axiom summary
         rc, out = sh(f"timeout 3000 coqchk -silent -o -Q {COQ} Abm Abm.Props.P_{prop}", cwd=COQ,
                      timeout=3100)
-        summ = out[out.find("CONTEXT SUMMARY"):][:3000] if "CONTEXT SUMMARY" in out else out[-1500:]
+        summ = out[out.find("CONTEXT SUMMARY"):] if "CONTEXT SUMMARY" in out else out[-1500:]
         def _field(name):
             m = re.search(r"\* " + name + r":\s*(.*?)\n\s*\n", summ + "\n\n", flags=re.S)
             return " ".join(m.group(1).split()) if m else "?"
@@ -624,11 +624,14 @@ def main_check(modname, prop, tier, seed):
         if rc != 0 or rep.extra_cov["coqchk"]["axioms"] not in ("<none>",):
             ax = rep.extra_cov["coqchk"]["axioms"]
             # kernel primitives (PrimFloat/Uint63) are not axioms of ours; anything else fails closed
-            bad = rc != 0 or any(tok and not re.match(r"(Coq\.)?(Floats|Numbers\.Cyclic\.Int63)", tok)
-                                 for tok in ax.replace("<none>", "").split())
+            # (PrimFloat.* / PrimInt63.* primitives and the Uint63 specification axioms that come with
+            # them; Floats.FloatAxioms would also be standard-library, but is no longer loaded)
+            bad = rc != 0 or ax == "?" or any(
+                tok and not re.match(r"Coq\.(Floats\.PrimFloat|Numbers\.Cyclic\.Int63\.(PrimInt63|Uint63))\.", tok)
+                for tok in ax.replace("<none>", "").split())
             if bad:
                 rep.violation({"kind": "proof-obligation-fails", "theorem": "coqchk -o Abm.Props.P_" + prop,
-                               "log": summ}, no_input=True)
+                               "log": summ[:6000]}, no_input=True)
     if not proofs_ok:
         # the proof obligations of this property do not check: report (after the search above)
         found_input = any(not ni for _, ni in rep.violations)
